@@ -103,7 +103,7 @@ PROPS = {
         k_quick=['q_sub_realloc_fail', 'q_sub_realloc_grow', 'q_sub_realloc_shrink'],
         k_thorough=['t_sub_realloc', 't_sub_realloc_fail', 't_sub_shrink_to'],
         assumptions=[A_SUB, A_HB, A_DOUBLE, A_CAP, A_ARITH, A_KBOUND,
-                     'with_capacity(n) takes n insertions without capacity change: relies on hashbrown (no tombstones => len < requested => has_room); not decided here',
+                     'with_capacity(n) takes n insertions without capacity change: proved as the per-call clause "capacity() > len() ==> a successful fresh insertion leaves capacity() unchanged" (insert, try_insert) plus with_capacity_and_hasher: capacity() >= n; it rests on the hashbrown fact capacity() = items + growth_left (axiom table_cap_bounds: !has_room ==> cap == len)',
                      'whole-history growth bound is the inductive consequence of the per-call clause cap_after_growth < max(4*len, 8)'],
         design='DESIGN.md §5 C13'),
     'C14': dict(
